@@ -61,9 +61,10 @@ Definition add_core (L : ledger) (a : addargs) : option (ledger * bool * option 
           (* new tranche: unlock height rounded down to the epoch, truncated to uint32 *)
           (0%Z, (a_unlock a - a_unlock a mod E) mod two32, 0, false, None)
         else
-          (* existing tranche: the returned "old" record is built with the NEW delegate (F6) *)
+          (* existing tranche: the returned "old" record carries the delegate stored before
+             (since fix commit 6881531a; it used to be built with the NEW delegate: finding F6 of C10) *)
           (r_bal r, r_unlock r, r_elems r, true,
-           Some (mkRec (r_bal r) (r_unlock r) (r_elems r) (a_deleg a))) in
+           Some (mkRec (r_bal r) (r_unlock r) (r_elems r) (r_deleg r))) in
       let el' := (el + 1) mod two16 in                                 (* uint16 elements++ *)
       let bal' := (bal + a_value a)%Z in
       if (two256 <=? bal')%Z then None                                 (* WriteCoinbaseLockup: amount too large *)
